@@ -377,7 +377,7 @@ def run_check(mod, tier: str, seed: int, only: str = None) -> int:
         "violations": new_violations,
     }
     os.makedirs(EVIDENCE_DIR, exist_ok=True)
-    evpath = os.path.join(EVIDENCE_DIR, f"{pid}.json")
+    evpath = os.path.join(EVIDENCE_DIR, f"{pid}.json" if not only else f"{pid}.partial.json")
     tmp = evpath + ".tmp"
     with open(tmp, "w") as f:
         json.dump(ev, f, indent=1, sort_keys=False, default=_json_default)
